@@ -1,8 +1,9 @@
 (* Props/C05.v — property C05: assignability decisions coincide with inclusion of value sets.  Statements only.
    The decision is  is_subtype(a, b) = is_empty(a \ b).  Theorems here are about that top level (Model/Subtype.v, with the
-   emptiness of list and mapping components as a parameter); the list and mapping emptiness procedures themselves are
-   judged by enumeration of values on the implementation (see DESIGN.md). *)
-From Beff Require Import Model.Subtype Proofs.C05 Proofs.SemOps.
+   emptiness of list and mapping components as a parameter) and about the list emptiness procedure (Model/ListEmpty.v:
+   bdd_every_result, list_formula_is_empty, list_inhabited); the mapping emptiness procedure is judged by enumeration of
+   values on the implementation (see DESIGN.md). *)
+From Beff Require Import Model.Subtype Model.ListSpec Proofs.C05 Proofs.SemOps Proofs.ListSoundTop.
 
 (* "two types are reported equivalent exactly when each is assignable to the other" *)
 Theorem C05_same_type_is_mutual_assignability :
@@ -58,6 +59,57 @@ Proof.
   - apply subtype_complete_basic; assumption.
 Qed.
 
+(* ---- lists.  Values are points or lists of values (Model/ListSpec.v); a list atom (prefix types, rest type) contains the
+        lists that have at least the prefix, element-wise, and whose remaining elements are in the rest type.  For every table
+        of list atoms with well-formed element types, every pair of well-formed types, every fuel (= nesting depth explored;
+        recursive list types run the model out of fuel, they are outside the theorem): if the procedure answers "assignable",
+        every value of the first type is a value of the second.  The oracle for mappings / Map / Set stays a parameter. ---- *)
+Theorem C05_list_types_assignable_implies_inclusion :
+  forall (tbl : ltable) (other_empty : proper -> res bool) (other_real : point -> Prop),
+    (forall p pt, other_empty p = Ok true -> other_real pt -> pmem p pt = false) ->
+    (forall i la, lookup_latom i tbl = Some la -> Forall (fun t => wf2 t = true) (la_prefix la) /\ wf2 (la_items la) = true) ->
+    forall f a b, wf2 a = true -> wf2 b = true -> sem_is_subtype_l tbl other_empty f a b = Ok true ->
+    forall v, lval_ok other_real v -> vmem tbl v a = true -> vmem tbl v b = true.
+Proof. exact list_subtype_sound. Qed.
+
+(* types whose structural components are lists only (arrays, tuples, tuples with rest, nested; no oracle at all) *)
+Corollary C05_list_only_types_assignable_implies_inclusion :
+  forall (tbl : ltable),
+    (forall i la, lookup_latom i tbl = Some la -> Forall (fun t => wf2 t = true) (la_prefix la) /\ wf2 (la_items la) = true) ->
+    forall f a b, wf2 a = true -> wf2 b = true -> sem_is_subtype_l tbl no_struct f a b = Ok true ->
+    forall v, lval_ok (fun _ => True) v -> vmem tbl v a = true -> vmem tbl v b = true.
+Proof.
+  intros tbl Ht. apply (list_subtype_sound tbl no_struct (fun _ => True)); [|exact Ht].
+  intros p pt H. discriminate H.
+Qed.
+
+(* non-vacuity, and the two shapes on which the pinned tree answered wrongly before the repairs 10e351d / 09b6a21:
+   L0 = [null, ...(number|string)[]], L1 = [null|number, ...string[]], L2 = [null, number, ...any[]], L3 = string[], L4 = [string] *)
+Definition tNull := mkSem (stag_code TgNull) [].   Definition tNum := mkSem (stag_code TgNumber) [].
+Definition tStr := mkSem (stag_code TgString) [].  Definition tNumStr := mkSem (N.lor (stag_code TgNumber) (stag_code TgString)) [].
+Definition ex_tbl : ltable :=
+  [(0%N, mkLatom [tNull] tNumStr); (1%N, mkLatom [mkSem (N.lor (stag_code TgNull) (stag_code TgNumber)) []] tStr);
+   (2%N, mkLatom [tNull; tNum] sem_unknown); (3%N, mkLatom [] tStr); (4%N, mkLatom [tStr] sem_never)].
+Definition lst (i : N) : semtype := mkSem 0 [PList (from_atom (mkAtom AList i))].
+Definition lst2 (i j : N) : semtype := mkSem 0 [PList (BNode (mkAtom AList i) BTrue (from_atom (mkAtom AList j)) BFalse)].
+Definition lst_and (i j : N) : semtype := mkSem 0 [PList (BNode (mkAtom AList i) (from_atom (mkAtom AList j)) BFalse BFalse)].
+Example C05_lists_nonvacuous :
+  (forall i la, lookup_latom i ex_tbl = Some la -> Forall (fun t => wf2 t = true) (la_prefix la) /\ wf2 (la_items la) = true) /\
+  sem_is_subtype_l ex_tbl no_struct 5 (lst 4) (lst 3) = Ok true /\            (* [string] <= string[] *)
+  sem_is_subtype_l ex_tbl no_struct 5 (lst 3) (lst 4) = Ok false /\
+  sem_is_subtype_l ex_tbl no_struct 5 (lst 0) (lst2 1 2) = Ok false /\        (* [null, "b", 1] separates them *)
+  sem_is_empty_l ex_tbl no_struct 5 (lst_and 3 4) = Ok false /\               (* string[] & [string] has the value ["a"] *)
+  sem_is_empty_l ex_tbl no_struct 5 (lst_and 4 3) = Ok false /\
+  vmem ex_tbl (LList [LPt (PtUnit TgNull); LPt (PtStr "b"); LPt (PtNum 1)]) (lst 0) = true /\
+  vmem ex_tbl (LList [LPt (PtUnit TgNull); LPt (PtStr "b"); LPt (PtNum 1)]) (lst2 1 2) = false.
+Proof.
+  split.
+  - intros i la H. unfold ex_tbl in H. cbn [lookup_latom] in H.
+    repeat (match type of H with (if ?c then _ else _) = _ => destruct c end; [inversion H; subst; split; [repeat constructor|reflexivity]|]).
+    discriminate H.
+  - repeat split; vm_compute; reflexivity.
+Qed.
+
 (* non-vacuity: "a" | 1 is assignable to string | 1 | 2 and not the other way round *)
 Definition ex_a : semtype := mkSem 0 [PNumber true [NLit 1]; PString true [STpl [TplConst "a"]]].
 Definition ex_b : semtype := mkSem (stag_code TgString) [PNumber true [NLit 1; NLit 2]].
@@ -73,3 +125,5 @@ Print Assumptions C05_assignability_is_emptiness_of_difference.
 Print Assumptions C05_difference_is_set_difference.
 Print Assumptions C05_assignable_implies_inclusion.
 Print Assumptions C05_basic_types_assignability_is_inclusion.
+Print Assumptions C05_list_types_assignable_implies_inclusion.
+Print Assumptions C05_list_only_types_assignable_implies_inclusion.
